@@ -344,3 +344,222 @@ Proof.
   - eexists. eexists. split; vm_compute; reflexivity.
   - eexists. eexists. split; vm_compute; reflexivity.
 Qed.
+
+(* ================================================================================================================
+   WHOLE-RUN SINGLE ASSIGNMENT, POSITIVE FORM (second audit, finding (g); Proofs/MonoSubRun.v, AssignedStrict.v,
+   AssignedLazy.v).  Ghost relations, the model is unchanged:
+
+   assigned_strict .. tgt k v   the strict run (File::execute: globals checked, then exec_file from sinit g0) EXECUTES
+                                Attributes::add of value v under name k on element tgt (`add_attr tgt k v` — the only
+                                operation that writes an attribute: attribute statements, shorthand expansions, debug
+                                attributes) from a state reached by the run;
+   assigned_lazy .. tgt k v     the lazy run (both phases) executes lattr_node_add / lattr_edge_add (evaluation of a
+                                deferred attribute statement) or ladd_node_attr (debug attribute of `node`) with k, v on tgt.
+   "Executes from a reached state" is a derivation msubrun (Proofs/SubRun.v's subrun + "everything executed around it
+   only extends the graph").  The theorems: if the run returns Ok, EVERY such assignment is still in the final graph;
+   so two assignments of one successful run to the same (element, name) wrote equal values.
+   The _is_assignment theorems say which executed statements are assignments.  Strict: any executed `k = e` of an attribute
+   list at any depth GIVEN a derivation down to it (strict_executed_attr_is_assignment), and derivations are provided for
+   top-level `attr` statements of stanzas (strict_top_attr_.._is_assignment); derivation rules through the bodies of
+   if / for / scan are NOT provided.  Lazy: every deferred attribute statement (they are flat, whatever the nesting in the
+   program). *)
+From TSG Require Import Proofs.SubRun Proofs.MonoSubRun Proofs.AssignedStrict Proofs.AssignedLazy.
+
+Theorem strict_ok_run_keeps_every_assignment : forall {rx} t fl cfg supplied budget (regexes : list rx) find call fuel matches g0 s p tgt k v,
+  graph_wf g0 ->
+  run_strict t fl cfg supplied budget regexes find call fuel matches g0 = Ok (s, p) ->
+  assigned_strict t fl cfg supplied budget regexes find call fuel matches g0 tgt k v ->
+  target_attr (s_graph s) tgt k = Some v.
+Proof. intros rx. exact (@strict_ok_run_keeps_lemma rx). Qed.
+
+Theorem strict_ok_run_assignments_agree : forall {rx} t fl cfg supplied budget (regexes : list rx) find call fuel matches g0 s p tgt k v1 v2,
+  graph_wf g0 ->
+  run_strict t fl cfg supplied budget regexes find call fuel matches g0 = Ok (s, p) ->
+  assigned_strict t fl cfg supplied budget regexes find call fuel matches g0 tgt k v1 ->
+  assigned_strict t fl cfg supplied budget regexes find call fuel matches g0 tgt k v2 ->
+  v1 = v2.
+Proof.
+  intros rx t fl cfg supplied budget regexes find call fuel matches g0 s p tgt k v1 v2 Hwf Hrun H1 H2.
+  pose proof (strict_ok_run_keeps_every_assignment _ _ _ _ _ _ _ _ _ _ _ _ _ _ _ _ Hwf Hrun H1) as K1.
+  pose proof (strict_ok_run_keeps_every_assignment _ _ _ _ _ _ _ _ _ _ _ _ _ _ _ _ Hwf Hrun H2) as K2. congruence.
+Qed.
+
+(* an assignment was reached by the run in the sense of Proofs/SubRun.v (so, e.g., had it failed the run would have failed) *)
+Theorem strict_assignment_is_subrun : forall {A} (c : M sstate A) s0 p0 tgt k v,
+  writes c s0 p0 tgt k v -> exists s' p', subrun (add_attr tgt k v) s' p' c s0 p0.
+Proof. intros A c s0 p0 tgt k v (s' & p' & H). exists s', p'. eapply msubrun_subrun, H. Qed.
+
+(* the run c executes (anywhere, derivation given) the attribute `k = e` of an attribute list on tgt, k is not a shorthand and
+   e evaluated to v: that is an assignment of v *)
+Theorem strict_executed_attr_is_assignment : forall {A} t fl glob call (c : M sstate A) s0 p0 fuel le tgt k e s1 p1 v s2 p2,
+  call_extends call ->
+  msubrun sinv sR (exec_attr t fl glob call (S fuel) le tgt (Attr k e)) s1 p1 c s0 p0 ->
+  snd (poll_step L_exec_attr p1) = false -> find_shorthand k (f_shorthands fl) = None ->
+  eval t fl glob call fuel le e s1 (fst (poll_step L_exec_attr p1)) = Ok (v, s2, p2) ->
+  writes c s0 p0 tgt k v.
+Proof.
+  intros A t fl glob call c s0 p0 fuel le tgt k e s1 p1 v s2 p2 Hc Hsub Hp Hs Ev.
+  eapply writes_sub; [exact Hsub|]. exists s2, p2. apply esub_exec_attr_write; assumption.
+Qed.
+
+(* a top-level `attr (node) pre.., k = e, post..` of stanza st that the run reached on match q (hypotheses as in
+   strict_run_attr_conflict_fails, without the conflict): its `k = e`, evaluated to v, is an assignment of the run *)
+Theorem strict_top_attr_node_is_assignment : forall {rx} t fl cfg supplied budget (regexes : list rx) find call fuel matches g0 glob
+    stpre mspre st sts mpre q mpost ms sA pA sB pB n rest spre spost s p node pre k e post l gn s1 p1 s2 p2 v s3 p3,
+  call_extends call ->
+  check_globals (f_globals fl) (globals_nested supplied) = Ok glob ->
+  f_stanzas fl = stpre ++ st :: sts -> matches = mspre ++ (mpre ++ q :: mpost) :: ms -> length stpre = length mspre ->
+  exec_file t fl cfg glob regexes find call (S (S fuel)) stpre mspre (sinit g0) (polls0 budget) = Ok (tt, sA, pA) ->
+  iterM (exec_stanza t fl cfg glob regexes find call (S (S fuel)) st) mpre sA pA = Ok (tt, sB, pB) ->
+  nodes_for_capture q (st_full_stanza_idx st) = n :: rest ->
+  let x := SAttrNode node (pre ++ Attr k e :: post) l in
+  let le := top_le st q n x in
+  st_stmts st = spre ++ x :: spost ->
+  exec_stanza t fl cfg glob regexes find call (S (S fuel)) (stanza_prefix st spre) q sB pB = Ok (tt, s, p) ->
+  snd (poll_step L_exec_stmt p) = false ->
+  eval t fl glob call (S fuel) le node s (fst (poll_step L_exec_stmt p)) = Ok (VGraph gn, s1, p1) ->
+  iterM (exec_attr t fl glob call (S fuel) le (TNode gn)) pre s1 p1 = Ok (tt, s2, p2) ->
+  snd (poll_step L_exec_attr p2) = false -> find_shorthand k (f_shorthands fl) = None ->
+  eval t fl glob call fuel le e s2 (fst (poll_step L_exec_attr p2)) = Ok (v, s3, p3) ->
+  assigned_strict t fl cfg supplied budget regexes find call (S (S fuel)) matches g0 (TNode gn) k v.
+Proof. intros rx. exact (@strict_top_attr_node_assigned rx). Qed.
+
+Theorem strict_top_attr_edge_is_assignment : forall {rx} t fl cfg supplied budget (regexes : list rx) find call fuel matches g0 glob
+    stpre mspre st sts mpre q mpost ms sA pA sB pB n rest spre spost s p src snk pre k e post l a b sa pa s1 p1 s2 p2 v s3 p3,
+  call_extends call ->
+  check_globals (f_globals fl) (globals_nested supplied) = Ok glob ->
+  f_stanzas fl = stpre ++ st :: sts -> matches = mspre ++ (mpre ++ q :: mpost) :: ms -> length stpre = length mspre ->
+  exec_file t fl cfg glob regexes find call (S (S fuel)) stpre mspre (sinit g0) (polls0 budget) = Ok (tt, sA, pA) ->
+  iterM (exec_stanza t fl cfg glob regexes find call (S (S fuel)) st) mpre sA pA = Ok (tt, sB, pB) ->
+  nodes_for_capture q (st_full_stanza_idx st) = n :: rest ->
+  let x := SAttrEdge src snk (pre ++ Attr k e :: post) l in
+  let le := top_le st q n x in
+  st_stmts st = spre ++ x :: spost ->
+  exec_stanza t fl cfg glob regexes find call (S (S fuel)) (stanza_prefix st spre) q sB pB = Ok (tt, s, p) ->
+  snd (poll_step L_exec_stmt p) = false ->
+  eval t fl glob call (S fuel) le src s (fst (poll_step L_exec_stmt p)) = Ok (VGraph a, sa, pa) ->
+  eval t fl glob call (S fuel) le snk sa pa = Ok (VGraph b, s1, p1) ->
+  iterM (exec_attr t fl glob call (S fuel) le (TEdge a b)) pre s1 p1 = Ok (tt, s2, p2) ->
+  snd (poll_step L_exec_attr p2) = false -> find_shorthand k (f_shorthands fl) = None ->
+  eval t fl glob call fuel le e s2 (fst (poll_step L_exec_attr p2)) = Ok (v, s3, p3) ->
+  assigned_strict t fl cfg supplied budget regexes find call (S (S fuel)) matches g0 (TEdge a b) k v.
+Proof. intros rx. exact (@strict_top_attr_edge_assigned rx). Qed.
+
+(* lazy *)
+Theorem lazy_ok_run_keeps_every_assignment : forall {rx} t fl cfg supplied budget (regexes : list rx) find call fuel matches g0 s p tgt k v,
+  graph_sorted g0 ->
+  run_lazy t fl cfg supplied budget regexes find call fuel matches g0 = Ok (s, p) ->
+  assigned_lazy t fl cfg supplied budget regexes find call fuel matches g0 tgt k v ->
+  target_attr (l_graph s) tgt k = Some v.
+Proof. intros rx. exact (@lazy_ok_run_keeps_lemma rx). Qed.
+
+Theorem lazy_ok_run_assignments_agree : forall {rx} t fl cfg supplied budget (regexes : list rx) find call fuel matches g0 s p tgt k v1 v2,
+  graph_sorted g0 ->
+  run_lazy t fl cfg supplied budget regexes find call fuel matches g0 = Ok (s, p) ->
+  assigned_lazy t fl cfg supplied budget regexes find call fuel matches g0 tgt k v1 ->
+  assigned_lazy t fl cfg supplied budget regexes find call fuel matches g0 tgt k v2 ->
+  v1 = v2.
+Proof.
+  intros rx t fl cfg supplied budget regexes find call fuel matches g0 s p tgt k v1 v2 Hwf Hrun H1 H2.
+  pose proof (lazy_ok_run_keeps_every_assignment _ _ _ _ _ _ _ _ _ _ _ _ _ _ _ _ Hwf Hrun H1) as K1.
+  pose proof (lazy_ok_run_keeps_every_assignment _ _ _ _ _ _ _ _ _ _ _ _ _ _ _ _ Hwf Hrun H2) as K2. congruence.
+Qed.
+
+Theorem lazy_assignment_is_subrun : forall {A} (c : M lstate A) s0 p0 tgt k v,
+  lwrites c s0 p0 tgt k v -> exists d s' p', lazy_write tgt k v d /\ subrun d s' p' c s0 p0.
+Proof. intros A c s0 p0 tgt k v (d & s' & p' & Hw & H). exists d, s', p'. split; [exact Hw|]. eapply msubrun_subrun, H. Qed.
+
+(* the deferred statement `attr (node) pre.., k = lv, post..` of the run (execution phase done: state s; edge statements
+   evaluated; the attribute statements apre before it evaluated), whose node evaluated to n and whose lv evaluated to v
+   (hypotheses as in lazy_attr_conflict_fails / lazy_run_failing_attr_statement_fails_run): an assignment of the run *)
+Theorem lazy_deferred_attr_node_is_assignment : forall {rx} t fl cfg supplied budget (regexes : list rx) find call fuel matches g0 glob
+    s p s1 p1 apre apost s2 p2 node pre k lv post dbg n s3 p3 s4 p4 v s5 p5,
+  call_extends_sorted call ->
+  check_globals (f_globals fl) (globals_nested supplied) = Ok glob ->
+  iterM (fun pm : N * qmatch =>
+           match nth_error (f_stanzas fl) (N.to_nat (fst pm)) with
+           | Some st => lexec_stanza t fl cfg glob regexes find call fuel st (snd pm)
+           | None => panic P_stanza_index
+           end) matches (linit g0) (polls0 budget) = Ok (tt, s, p) ->
+  iterM (eval_lstmt t fl call (fuel + default_eval_fuel)) (l_edges s) s p = Ok (tt, s1, p1) ->
+  l_attrs s = apre ++ LSAttrNode node (pre ++ (k, lv) :: post) dbg :: apost ->
+  iterM (eval_lstmt t fl call (fuel + default_eval_fuel)) apre s1 p1 = Ok (tt, s2, p2) ->
+  snd (poll_step L_eval_stmt p2) = false ->
+  eval_as_gnode t fl call (fuel + default_eval_fuel) node s2 (fst (poll_step L_eval_stmt p2)) = Ok (n, s3, p3) ->
+  iterM (node_attr_step t fl call (fuel + default_eval_fuel) n dbg) pre s3 p3 = Ok (tt, s4, p4) ->
+  eval_lv t fl call (fuel + default_eval_fuel) lv s4 p4 = Ok (v, s5, p5) ->
+  assigned_lazy t fl cfg supplied budget regexes find call fuel matches g0 (TNode n) k v.
+Proof. intros rx. exact (@lazy_deferred_attr_node_assigned rx). Qed.
+
+(* ... `attr (src -> snk) ..`; the edge a -> b exists when (k, lv) is reached (m = its attributes then) *)
+Theorem lazy_deferred_attr_edge_is_assignment : forall {rx} t fl cfg supplied budget (regexes : list rx) find call fuel matches g0 glob
+    s p s1 p1 apre apost s2 p2 src snk pre k lv post dbg a b sa pa s3 p3 s4 p4 v s5 p5 m,
+  call_extends_sorted call ->
+  check_globals (f_globals fl) (globals_nested supplied) = Ok glob ->
+  iterM (fun pm : N * qmatch =>
+           match nth_error (f_stanzas fl) (N.to_nat (fst pm)) with
+           | Some st => lexec_stanza t fl cfg glob regexes find call fuel st (snd pm)
+           | None => panic P_stanza_index
+           end) matches (linit g0) (polls0 budget) = Ok (tt, s, p) ->
+  iterM (eval_lstmt t fl call (fuel + default_eval_fuel)) (l_edges s) s p = Ok (tt, s1, p1) ->
+  l_attrs s = apre ++ LSAttrEdge src snk (pre ++ (k, lv) :: post) dbg :: apost ->
+  iterM (eval_lstmt t fl call (fuel + default_eval_fuel)) apre s1 p1 = Ok (tt, s2, p2) ->
+  snd (poll_step L_eval_stmt p2) = false ->
+  eval_as_gnode t fl call (fuel + default_eval_fuel) src s2 (fst (poll_step L_eval_stmt p2)) = Ok (a, sa, pa) ->
+  eval_as_gnode t fl call (fuel + default_eval_fuel) snk sa pa = Ok (b, s3, p3) ->
+  iterM (edge_attr_step t fl call (fuel + default_eval_fuel) a b dbg) pre s3 p3 = Ok (tt, s4, p4) ->
+  eval_lv t fl call (fuel + default_eval_fuel) lv s4 p4 = Ok (v, s5, p5) ->
+  target_attrs (l_graph s5) (TEdge a b) = Some m ->
+  assigned_lazy t fl cfg supplied budget regexes find call fuel matches g0 (TEdge a b) k v.
+Proof. intros rx. exact (@lazy_deferred_attr_edge_assigned rx). Qed.
+
+(* non-vacuity: the successful runs of  (module) @m { let x = (node)  attr (x) k = 1  attr (x) k = 1 }  (c09_file2 1) in both
+   modes: the second `attr` statement is an assignment of the run (the _is_assignment theorems apply, with the standard
+   library; the hypotheses are discharged one after the other by computation), so the keeps theorems give k = 1 on node 0
+   of the final graph of THE run *)
+Definition c09_call := stdlib_call c09_oracle c09_tree.
+Definition c09_st2 : stanza :=
+  hd {| st_stmts := []; st_full_stanza_idx := 0; st_full_file_idx := 0; st_start := (0, 0) |} (f_stanzas (c09_file2 1)).
+Example c09_assigned_strict_nonvacuous :
+  assigned_strict c09_tree (c09_file2 1) config0 [[]] None (@nil unit) (fun _ _ => None) c09_call 50 [[[(0, [0])]]] [] (TNode 0) [107] (VInt 1) /\
+  exists s p, run_strict c09_tree (c09_file2 1) config0 [[]] None (@nil unit) (fun _ _ => None) c09_call 50 [[[(0, [0])]]] [] = Ok (s, p) /\
+              target_attr (s_graph s) (TNode 0) [107] = Some (VInt 1).
+Proof.
+  assert (HA : assigned_strict c09_tree (c09_file2 1) config0 [[]] None (@nil unit) (fun _ _ => None) c09_call 50 [[[(0, [0])]]] [] (TNode 0) [107] (VInt 1)).
+  { change 50%nat with (S (S 48)).
+    eapply (strict_top_attr_node_is_assignment c09_tree (c09_file2 1) config0 [[]] None (@nil unit) (fun _ _ => None) c09_call 48 [[[(0, [0])]]] [] _
+              [] [] c09_st2 [] [] [(0,[0])] [] [] _ _ _ _ 0 []
+              [ SLet (VarU [120] (1, 6)) (ECall Lit.node []) (1, 2); SAttrNode (EUnscoped [120] (2, 8)) [Attr [107] (EInt 1)] (2, 2) ] []
+              _ _ (EUnscoped [120] (3, 8)) [] [107] (EInt 1) [] (3,2) 0 _ _ _ _ (VInt 1) _ _ (stdlib_extends c09_oracle c09_tree)).
+    (* one goal after the other: each fixes the states the next one starts from *)
+    { vm_compute; reflexivity. } { vm_compute; reflexivity. } { vm_compute; reflexivity. } { vm_compute; reflexivity. } { vm_compute; reflexivity. }
+    { vm_compute; reflexivity. } { vm_compute; reflexivity. } { vm_compute; reflexivity. } { vm_compute; reflexivity. } { vm_compute; reflexivity. }
+    { vm_compute; reflexivity. } { vm_compute; reflexivity. } { vm_compute; reflexivity. } { vm_compute; reflexivity. } { vm_compute; reflexivity. } }
+  split; [exact HA|].
+  assert (Hr : exists s p, run_strict c09_tree (c09_file2 1) config0 [[]] None (@nil unit) (fun _ _ => None) c09_call 50 [[[(0, [0])]]] [] = Ok (s, p))
+    by (eexists; eexists; vm_compute; reflexivity).
+  destruct Hr as (s & p & Hrun). exists s, p. split; [exact Hrun|].
+  exact (strict_ok_run_keeps_every_assignment c09_tree (c09_file2 1) config0 [[]] None (@nil unit) (fun _ _ => None) c09_call 50%nat [[[(0, [0])]]] []
+           s p (TNode 0) [107] (VInt 1) (Forall_nil _) Hrun HA).
+Qed.
+
+Example c09_assigned_lazy_nonvacuous :
+  assigned_lazy c09_tree (c09_file2 1) config0 [[]] None (@nil unit) (fun _ _ => None) c09_call 50 [(0, [(0, [0])])] [] (TNode 0) [107] (VInt 1) /\
+  exists s p, run_lazy c09_tree (c09_file2 1) config0 [[]] None (@nil unit) (fun _ _ => None) c09_call 50 [(0, [(0, [0])])] [] = Ok (s, p) /\
+              target_attr (l_graph s) (TNode 0) [107] = Some (VInt 1).
+Proof.
+  assert (HA : assigned_lazy c09_tree (c09_file2 1) config0 [[]] None (@nil unit) (fun _ _ => None) c09_call 50 [(0, [(0, [0])])] [] (TNode 0) [107] (VInt 1)).
+  { (* the SECOND deferred attribute statement *)
+    eapply (lazy_deferred_attr_node_is_assignment c09_tree (c09_file2 1) config0 [[]] None (@nil unit) (fun _ _ => None) c09_call 50%nat [(0, [(0, [0])])] [] _
+              _ _ _ _ [LSAttrNode (LVar 0) [([107], LValue (VInt 1))] {| sc_stmt := (2, 2); sc_stanza := (0, 0); sc_node := 0 |}] [] _ _
+              (LVar 0) [] [107] (LValue (VInt 1)) [] {| sc_stmt := (3, 2); sc_stanza := (0, 0); sc_node := 0 |} 0 _ _ _ _ (VInt 1) _ _
+              (stdlib_extends_sorted c09_oracle c09_tree)).
+    { vm_compute; reflexivity. } { vm_compute; reflexivity. } { vm_compute; reflexivity. } { vm_compute; reflexivity. } { vm_compute; reflexivity. }
+    { vm_compute; reflexivity. } { vm_compute; reflexivity. } { vm_compute; reflexivity. } { vm_compute; reflexivity. } }
+  split; [exact HA|].
+  assert (Hr : exists s p, run_lazy c09_tree (c09_file2 1) config0 [[]] None (@nil unit) (fun _ _ => None) c09_call 50 [(0, [(0, [0])])] [] = Ok (s, p))
+    by (eexists; eexists; vm_compute; reflexivity).
+  destruct Hr as (s & p & Hrun). exists s, p. split; [exact Hrun|].
+  exact (lazy_ok_run_keeps_every_assignment c09_tree (c09_file2 1) config0 [[]] None (@nil unit) (fun _ _ => None) c09_call 50%nat [(0, [(0, [0])])] []
+           s p (TNode 0) [107] (VInt 1) (Forall_nil _) Hrun HA).
+Qed.
